@@ -25,8 +25,10 @@ impl<const B: Word> Repr<B> {
 //@@ FN float/clones/repr_clone_from.rs
 }
 impl<R: Round> Context<R> {
-// `Context::max` (verified in unit float_add): present so that a changed clone_from that merges precisions is judged
+// `Context::max` / `Context::new` (verified in units float_add / float_sign): present so that a changed clone / clone_from
+// that merges or rebuilds the context is judged by their contracts instead of failing to compile
 //@@ SIG float/mul/context_max.rs
+//@@ SIG float/convert/context_new.rs
 }
 impl<R: Round, const B: Word> FBig<R, B> {
 //@@ FN float/clones/fbig_clone.rs
